@@ -258,6 +258,142 @@ def mk_astext_case(ni, entry, s):
                 {"net": NETS[ni][0], "entry": entry, "text": u32(s).hex(), "astext": True})
 
 
+# ---- histories: ONE parseable_str object offered to several networks / entry points ---------------------------
+class _StrSub(str):
+    """a str subclass (a legal presentation of text)"""
+
+
+def owner_symbol(o):
+    n = getattr(o, "_network", None)
+    return None if n is None else getattr(n, "symbol", "?")
+
+
+def describe(net, o):
+    """everything observable that must not depend on the history: the object, the network it belongs to, its text"""
+    if o is None:
+        return "N"
+    try:
+        t = quiet(serialise, net, o)
+    except ImportError:
+        t = "<no-hash-package>"
+    except Exception as e:
+        t = "!" + type(e).__name__
+    extra = ""
+    if kind_of(o) in ("K", "H32", "H49", "H84", "E"):
+        try:
+            extra = quiet(o.address)
+        except ImportError:
+            extra = "<no-hash-package>"
+        except Exception as e:
+            extra = "!" + type(e).__name__
+    return "%s owner=%s text=%s addr=%s" % (canon_obj(o), owner_symbol(o), t, extra)
+
+
+def call_described(net, entry, s):
+    try:
+        return describe(net, parse_call(net, entry, s))
+    except Exception as e:
+        return "!" + exn_tag(e) + ":" + type(e).__name__
+
+
+def impl_seq(text, calls):
+    """canonical answers of the calls [(net index, entry)] made one after the other on ONE parseable_str"""
+    ps = _ps.parseable_str(text)
+    out = []
+    for ni, entry in calls:
+        out.append(impl_entry(NETS[ni][1], entry, ps))
+    return "[" + " ".join(out) + "]"
+
+
+def mk_seq_case(text, calls):
+    line = "seq x%s [%s]" % (u32(text).hex(), ",".join("%s:%s" % (arg(ENTRY_NO[e]), arg(ni)) for ni, e in calls))
+    return Case(line, (lambda text=text, calls=calls: impl_seq(text, calls)),
+                {"seq": [[NETS[ni][0], e] for ni, e in calls], "text": u32(text).hex()})
+
+
+def chk_history(text, calls, presentation="parseable_str"):
+    """calls = [(network symbol, entry)]: every answer on the shared object equals the answer for a fresh plain str on
+    that network (object, owning network, text form, address), the owner is the network that was asked, nothing raises"""
+    if presentation == "parseable_str":
+        shared = _ps.parseable_str(text)
+    elif presentation == "str_subclass":
+        shared = _StrSub(text)
+    elif presentation == "parseable_of_subclass":
+        shared = _ps.parseable_str(_StrSub(text))
+    else:
+        shared = NETS[NET_INDEX[calls[0][0]]][1].parseable_str_type(text)
+    for i, (nm, entry) in enumerate(calls):
+        net = NETS[NET_INDEX[nm]][1]
+        want = call_described(net, entry, str(text))
+        got = call_described(net, entry, shared)
+        if got != want:
+            return {"kind": "answer-depends-on-history", "position": i, "net": nm, "entry": entry,
+                    "fresh": want[:300], "shared": got[:300], "before": [list(c) for c in calls[:i]]}
+        if want.startswith("!"):
+            return {"kind": "raises", "position": i, "net": nm, "entry": entry, "exc": want}
+        if want != "N" and " owner=%s " % net.symbol not in want:
+            return {"kind": "object-of-another-network", "net": nm, "entry": entry, "got": want[:200]}
+    return None
+
+
+def prefix_groups():
+    """networks that share a prefix of some kind (an object parsed for one could be mistaken for the other's)"""
+    groups = {}
+    for nm, net in NETS:
+        for attr in ("_bip32_prv_prefix", "_wif_prefix", "_address_prefix", "_pay_to_script_prefix", "_bech32_hrp",
+                     "_bip49_prv_prefix", "_bip84_prv_prefix"):
+            v = getattr(net.parse, attr)
+            if v is not None:
+                groups.setdefault((attr, v), []).append(nm)
+    return {k: v for k, v in groups.items() if len(v) > 1}
+
+
+HIST_ENTRIES = ["bip32", "bip32_prv", "bip32_pub", "bip49", "bip84", "hierarchical_key", "wif", "private_key", "secret",
+                "p2pkh", "p2sh", "address", "payable", "p2pkh_segwit", "p2sh_segwit", "p2tr", "__call__", "public_key",
+                "sec", "script", "secret_exponent", "electrum_prv", "bip32_seed"]
+
+
+def history_inputs(rng, tier):
+    """(text, [(network symbol, entry)], presentation)"""
+    thorough = tier == "thorough"
+    groups = prefix_groups()
+    keys = sorted(groups, key=lambda k: (k[0], str(k[1])))
+    for key in keys:
+        members = [m for m in groups[key] if not is_disabled(NETS[NET_INDEX[m]][1])]
+        if len(members) < 2:
+            continue
+        for _ in range(1 if not thorough else 6):
+            nets = rng.sample(members, min(len(members), rng.choice([2, 3, 4])))
+            src = NETS[NET_INDEX[nets[0]]][1]
+            texts = valid_texts(rng, src, lean=not thorough)
+            # texts of the kind the shared prefix belongs to first
+            for text in texts:
+                es = [rng.choice(HIST_ENTRIES) for _ in range(2)] + ["__call__"]
+                fam = {"_bip32_prv_prefix": ["bip32", "bip32_prv", "bip32_pub", "hierarchical_key", "secret"],
+                       "_wif_prefix": ["wif", "private_key", "secret"], "_address_prefix": ["p2pkh", "address", "payable"],
+                       "_pay_to_script_prefix": ["p2sh", "address", "payable"],
+                       "_bech32_hrp": ["p2pkh_segwit", "p2sh_segwit", "p2tr", "address"],
+                       "_bip49_prv_prefix": ["bip49", "hierarchical_key"], "_bip84_prv_prefix": ["bip84", "hierarchical_key"]}[key[0]]
+                for order in (nets, nets[::-1]):
+                    calls = [(nm, e) for nm in order for e in (fam[:2] if not thorough else fam) + es[:1]]
+                    yield text, calls, rng.choice(["parseable_str", "parseable_str", "network_type", "parseable_of_subclass"])
+    # one network, every ordered pair of entry points (memoisation between entry points of the same network)
+    for nm in (["btc", "polis"] if not thorough else ["btc", "polis", "xtn", "ltc", "dcr", "mzc", "pivx"]):
+        net = NETS[NET_INDEX[nm]][1]
+        texts = valid_texts(rng, net, lean=True)[:5] + ["1/even", "02" + "%064x" % 1, "E:" + "00" * 31 + "01", "H:00", "12345", "OP_DUP"]
+        for text in texts:
+            es = [e for e in ENTRIES if e != "electrum_seed"]
+            rng.shuffle(es)
+            yield text, [(nm, e) for e in es] + [(nm, e) for e in es[::-1]], "parseable_str"
+            yield text, [(nm, e) for e in es[:6]], "str_subclass"
+    # random walks over all networks
+    for _ in range(30 if not thorough else 600):
+        nm0 = rng.choice([nm for nm, n in NETS if not is_disabled(n)])
+        text = rng.choice(valid_texts(rng, NETS[NET_INDEX[nm0]][1], lean=True))
+        calls = [(rng.choice(NETS)[0], rng.choice(HIST_ENTRIES)) for _ in range(rng.randint(2, 8))]
+        yield text, calls, "parseable_str"
+
+
 def run_line(ni, entry, s):
     return "run %s %s %s" % (arg(ENTRY_NO[entry]), arg(ni), "x" + u32(s).hex())
 
@@ -683,6 +819,9 @@ def model_cases(rng, tier):
         for s in degenerate_segwit_texts(rng, net, lean=not wide):
             for e in (SEGWIT_PATH if wide else rng.sample(SEGWIT_PATH, 3)):
                 yield mk_case(ni, e, s)
+    # C''. histories on one shared parseable_str (the model answers each call as for a fresh text)
+    for text, calls, pres in history_inputs(rng, tier):
+        yield mk_seq_case(text, [(NET_INDEX[nm], e) for nm, e in calls][:24])
     # D. electrum seeds (100000 SHA-256 rounds each: rationed)
     for s in electrum_seed_texts(rng, 3 if tier == "quick" else 25):
         for e in ("electrum_seed", "hierarchical_key", "secret", "__call__"):
@@ -763,6 +902,8 @@ def chk_total(net, entry, s):
     k = kind_of(r)
     if k is not None and k.startswith("?"):
         return {"kind": "unexpected-result-type", "type": k}
+    if r is not None and getattr(r, "_network", None) is not net:
+        return {"kind": "object-of-another-network", "owner": owner_symbol(r)}
     return None
 
 
@@ -943,6 +1084,9 @@ def _pc(name, nm, **kw):
     inp = dict(kw, net=nm)
     if name == "total":
         return PropCase(name, inp, lambda: chk_total(net, kw["entry"], un32(bytes.fromhex(kw["text"]))))
+    if name == "history":
+        return PropCase(name, inp, lambda: chk_history(un32(bytes.fromhex(kw["text"])), [tuple(c) for c in kw["calls"]],
+                                                       kw.get("presentation", "parseable_str")))
     if name == "shared_twice":
         return PropCase(name, inp, lambda: chk_shared_twice(net, kw["entry"], un32(bytes.fromhex(kw["text"]))))
     if name == "reserialize":
@@ -1034,6 +1178,9 @@ def prop_cases(rng, tier):
         for s in valid_texts(rng, net, lean=True)[:4] + ["", "1", "\ud800"]:
             for e in ("address", "__call__"):
                 yield _pc("shared_twice", nm, entry=e, text=u32(s).hex())
+    # histories: one text object offered to several networks and entry points, in several orders
+    for text, calls, pres in history_inputs(rng, tier):
+        yield _pc("history", calls[0][0], text=u32(text).hex(), calls=[list(c) for c in calls], presentation=pres)
     for nm in ("btc", "xtn", "polis", "ltc"):
         for name, kw in REGRESSIONS:
             kw2 = dict(kw)
@@ -1108,6 +1255,13 @@ def search(rng, tier, disagreements, known_ids):
     cands = []
     for d in disagreements[:200]:
         m = d.get("meta") or {}
+        if "seq" in m:
+            # a disagreeing history: the same calls, its prefixes, its reversal, each presentation
+            calls = [list(c) for c in m["seq"]]
+            for cs in (calls, calls[::-1], calls[:2], calls[-2:]):
+                for pres in ("parseable_str", "network_type", "parseable_of_subclass", "str_subclass"):
+                    cands.append(_pc("history", cs[0][0], text=m["text"], calls=cs, presentation=pres))
+            continue
         if "text" in m and "entry" in m:
             s = un32(bytes.fromhex(m["text"]))
             cands += list(text_checks(m["net"], m["entry"], s))
@@ -1123,6 +1277,12 @@ def search(rng, tier, disagreements, known_ids):
             for e in ENTRIES:
                 if e != "electrum_seed":
                     cands += list(text_checks(m["net"], e, s))
+            # the same text as one shared object over networks with the same prefixes
+            others = [nm for nm, n in NETS if nm != m["net"] and not is_disabled(n)
+                      and n.parse._bip32_prv_prefix == net.parse._bip32_prv_prefix][:3]
+            calls = [[nm, m["entry"]] for nm in [m["net"]] + others]
+            for cs in (calls, calls[::-1]):
+                cands.append(_pc("history", cs[0][0], text=m["text"], calls=cs))
     for pcs in (cands, prop_cases(rng, tier)):
         for pc in pcs:
             try:
